@@ -1163,197 +1163,5 @@ theorem flush_struct (T : Tables) (hw : HWorld V) (o : Obj) : SameStruct hw.w (f
     simp only [List.foldl_cons]
     exact ih _ (h0.trans (repost_struct T hw1 q))
 
-/-! ### every step keeps `InvH` -/
-
-theorem directFold_struct (P : Params V) (T : Tables) (cid : Nat) (names : List String) :
-    ∀ w : World V, SameStruct w (names.foldl (directOne P T cid) w) := by
-  induction names with
-  | nil => intro w; exact SameStruct.refl w
-  | cons nm r ih =>
-    intro w
-    simp only [List.foldl_cons]
-    refine SameStruct.trans ?_ (ih _)
-    unfold directOne
-    split
-    · exact (sameStruct_setCache _ _ _).trans (getOne_struct P T _ _ _ _)
-    · exact SameStruct.refl w
-
-theorem directH_struct (P : Params V) (T : Tables) (hw0 : HWorld V) (w : World V) (op : Op) :
-    SameStruct w (directH P T hw0 w op) := by
-  by_cases hop : ∃ cid meth, op = .cmut cid meth
-  · obtain ⟨cid, meth, rfl⟩ := hop
-    rw [directH_eq]
-    split
-    · exact directFold_struct P T cid _ w
-    · exact SameStruct.refl w
-  · have : directH P T hw0 w op = w := by
-      cases op <;> first | rfl | exact absurd ⟨_, _, rfl⟩ hop
-    rw [this]; exact SameStruct.refl w
-
-theorem quiet_holds {hw : HWorld V} (hq : hw.quiet = true) : hw.holds = [] ∧ hw.disabled = [] := by
-  unfold HWorld.quiet at hq
-  simp only [Bool.and_eq_true, List.isEmpty_iff] at hq
-  exact hq
-
-theorem queue_nil_of_holds_nil {P : Params V} {T : Tables} {hw : HWorld V} (hinv : InvH P T hw) (hh : hw.holds = []) :
-    hw.queue = [] := by
-  cases hq : hw.queue with
-  | nil => rfl
-  | cons q r =>
-    have := hinv.qheld q (by rw [hq]; simp)
-    unfold HWorld.held at this
-    rw [hh] at this
-    simp [AL.contains] at this
-
-/-- with nothing held `InvH` is the plain invariant -/
-theorem inv_of_invH {P : Params V} {T : Tables} {hw : HWorld V} (hinv : InvH P T hw) (hh : hw.holds = []) :
-    Inv P T hw.w := by
-  have hq := queue_nil_of_holds_nil hinv hh
-  refine ⟨?_, hinv.loose, hinv.creg, hinv.rdef⟩
-  intro o nm sk v hv
-  rcases hinv.coh o nm sk v hv with hf | ⟨q, hq', _⟩
-  · exact hf
-  · rw [hq] at hq'; cases hq'
-
-theorem invH_of_inv {P : Params V} {T : Tables} {hw : HWorld V} (hinv : Inv P T hw.w) (hq : hw.queue = [])
-    (hd : hw.disabled = []) : InvH P T hw :=
-  ⟨fun o nm sk v hv => Or.inl (hinv.coh o nm sk v hv), hinv.loose, hinv.creg, hinv.rdef,
-   (by intro q hq'; rw [hq] at hq'; cases hq'), hd⟩
-
-theorem held_set {hw : HWorld V} (o : Obj) (n : Nat) (q : Obj) (h : hw.held q = true) :
-    AL.contains (AL.set hw.holds o n) q = true := by
-  rw [AL.contains_set]
-  unfold HWorld.held at h
-  simp [h]
-
-theorem hstep_invH (P : Params V) (T : Tables) (hcov : Coverage T = true) (hpatch : PatchOK P) (hw : HWorld V)
-    (hop : HOp) (hok : hop.okIn hw = true) (hinv : InvH P T hw) (hd : Dom hw.w)
-    (hd' : Dom (hstep P T hw hop).1.w) : InvH P T (hstep P T hw hop).1 := by
-  cases hop with
-  | hold o =>
-    simp only [hstep]
-    split
-    · exact hinv
-    · exact ⟨hinv.coh, hinv.loose, hinv.creg, hinv.rdef, fun q hq => held_set o _ q.1 (hinv.qheld q hq), hinv.nodis⟩
-  | release o =>
-    simp only [hstep]
-    split
-    · exact hinv
-    · cases hg : AL.get? hw.holds o with
-      | none => exact hinv
-      | some n =>
-        simp only
-        by_cases hn : n ≤ 1
-        · simp only [hn, if_true]
-          exact invH_flush P T hw o hinv hd
-        · simp only [hn, if_false]
-          exact ⟨hinv.coh, hinv.loose, hinv.creg, hinv.rdef, fun q hq => held_set o _ q.1 (hinv.qheld q hq), hinv.nodis⟩
-  | disable o => cases hok
-  | enable o => cases hok
-  | base op =>
-    by_cases hq : hw.quiet = true
-    · -- nothing held: the plain step
-      obtain ⟨hh, hdz⟩ := quiet_holds hq
-      have hI := inv_of_invH hinv hh
-      have hqn := queue_nil_of_holds_nil hinv hh
-      have e : (hstep P T hw (.base op)).1 = { hw with w := (step P T hw.w op).1 } := by
-        simp only [hstep, hq, if_true]
-      rw [e] at hd' ⊢
-      exact invH_of_inv (step_inv P T hcov hpatch hw.w op hI hd hd') hqn hdz
-    · by_cases hin : op.isInner = true
-      · have e : (hstep P T hw (.base op)).1 = (stepInnerH P T hw op).1 := by
-          simp only [hstep, hq, hin, if_true]; rfl
-        rw [e] at hd' ⊢
-        unfold stepInnerH at hd' ⊢
-        simp only at hd' ⊢
-        have hdb : Dom (bumpOf hw.w op) :=
-          Dom.congr (sameStruct_applyDeliv T _ _).symm (Dom.congr (directH_struct P T hw _ op).symm hd')
-        have i1 := invH_inner P T hcov hw op hin hinv hd hdb
-        exact invH_direct P T hw _ op i1
-      · have hself : InvH P T { hw with w := hw.w } := hinv
-        cases op with
-        | get o name kw =>
-          have e : (hstep P T hw (.base (.get o name kw))).1 = { hw with w := (doGet P T hw.w o name kw).1 } := by
-            simp only [hstep, hq, Op.isInner]; rfl
-          rw [e]; exact invH_get P T hw o name kw hinv
-        | has o name kw =>
-          have e : (hstep P T hw (.base (.has o name kw))).1 = { hw with w := hw.w } := by
-            simp only [hstep, hq, Op.isInner]; rfl
-          rw [e]; exact hself
-        | keys o =>
-          have e : (hstep P T hw (.base (.keys o))).1 = { hw with w := hw.w } := by
-            simp only [hstep, hq, Op.isInner]; rfl
-          rw [e]; exact hself
-        | destroy o name kw =>
-          cases kw with
-          | nil =>
-            have e : (hstep P T hw (.base (.destroy o name []))).1 =
-                { hw with w := setCache hw.w o ((cacheOf hw.w o).destroyName name) } := by
-              simp only [hstep, hq, Op.isInner]; rfl
-            rw [e]
-            refine invH_shrink P T hw o _ hinv ?_
-            intro nm sk v hv
-            rw [Cache.get?_destroyName] at hv
-            by_cases e2 : name = nm
-            · simp [e2] at hv
-            · simpa [e2] using hv
-          | cons a r =>
-            have e : (hstep P T hw (.base (.destroy o name (a :: r)))).1 =
-                { hw with w := setCache hw.w o ((cacheOf hw.w o).destroyOne name (makeSubKey (a :: r))) } := by
-              simp only [hstep, hq, Op.isInner]; rfl
-            rw [e]
-            refine invH_shrink P T hw o _ hinv ?_
-            intro nm sk v hv
-            rw [Cache.get?_destroyOne] at hv
-            by_cases e2 : name = nm ∧ makeSubKey (a :: r) = sk
-            · simp [e2] at hv
-            · simpa [e2] using hv
-        | destroyAll o =>
-          have e : (hstep P T hw (.base (.destroyAll o))).1 = { hw with w := setCache hw.w o [] } := by
-            simp only [hstep, hq, Op.isInner]; rfl
-          rw [e]
-          exact invH_shrink P T hw o [] hinv (fun nm sk v hv => by simp [Cache.get?] at hv)
-        | cmove cid dx dy =>
-          simp only [HOp.okIn] at hok
-          exact absurd hok hq
-        | cmut cid meth => exact absurd rfl hin
-        | kmut kid meth => exact absurd rfl hin
-        | gmut g meth => exact absurd rfl hin
-        | gset meth => exact absurd rfl hin
-        | touch o meth => exact absurd rfl hin
-        | register cls name =>
-          have e : (hstep P T hw (.base (.register cls name))).1 = hw := by simp only [hstep, hq, Op.isInner]; rfl
-          rw [e]; exact hinv
-        | mkContour cid =>
-          have e : (hstep P T hw (.base (.mkContour cid))).1 = hw := by simp only [hstep, hq, Op.isInner]; rfl
-          rw [e]; exact hinv
-        | mkComp kid base =>
-          have e : (hstep P T hw (.base (.mkComp kid base))).1 = hw := by simp only [hstep, hq, Op.isInner]; rfl
-          rw [e]; exact hinv
-        | ksetBase kid base =>
-          have e : (hstep P T hw (.base (.ksetBase kid base))).1 = hw := by simp only [hstep, hq, Op.isInner]; rfl
-          rw [e]; exact hinv
-        | insContour g cid idx =>
-          have e : (hstep P T hw (.base (.insContour g cid idx))).1 = hw := by simp only [hstep, hq, Op.isInner]; rfl
-          rw [e]; exact hinv
-        | remContour g cid =>
-          have e : (hstep P T hw (.base (.remContour g cid))).1 = hw := by simp only [hstep, hq, Op.isInner]; rfl
-          rw [e]; exact hinv
-        | insComp g kid idx =>
-          have e : (hstep P T hw (.base (.insComp g kid idx))).1 = hw := by simp only [hstep, hq, Op.isInner]; rfl
-          rw [e]; exact hinv
-        | remComp g kid =>
-          have e : (hstep P T hw (.base (.remComp g kid))).1 = hw := by simp only [hstep, hq, Op.isInner]; rfl
-          rw [e]; exact hinv
-        | newGlyph name =>
-          have e : (hstep P T hw (.base (.newGlyph name))).1 = hw := by simp only [hstep, hq, Op.isInner]; rfl
-          rw [e]; exact hinv
-        | delGlyph name =>
-          have e : (hstep P T hw (.base (.delGlyph name))).1 = hw := by simp only [hstep, hq, Op.isInner]; rfl
-          rw [e]; exact hinv
-        | rename old new =>
-          have e : (hstep P T hw (.base (.rename old new))).1 = hw := by simp only [hstep, hq, Op.isInner]; rfl
-          rw [e]; exact hinv
-
 end Repr
 end DefconModel
